@@ -7,7 +7,8 @@ THEOREMS = {
     'C03': ['C03.C03_raw', 'C03.C03_size', 'C03.C03_header_text', 'C03.C03_partial', 'C03.C03_copyuid_pairs', 'C03.C03_copyuid_mem', 'C03.C03_sortNat_sorted',
             'C03.sortNat_perm', 'C03.copyuid_set_order_as_seeded'],
     'C04': ['C04.C04_uid_monotone', 'C04.C04_uidnext', 'C04.C04_appenduid', 'C04.C04_copyuid_pairing', 'C15.C15_recover',
-            'C15.C15_next_monotone', 'C15.C15_next_monotone_recover', 'C15.C15_append_uid_fresh'],
+            'C15.C15_next_monotone', 'C15.C15_next_monotone_recover', 'C15.C15_append_uid_fresh',
+            'C04.C04_uidlist_no_reuse', 'C04.C04_uidlist_exclusion', 'C04.uidlist_read_before_lock_as_seeded'],
     'C05': ['C05.C05_state_only', 'C05.C05_gate', 'C05.C05_refused_noop', 'C05.C05_select', 'C05.C05_close', 'C05.C05_logout'],
     'C06': ['C06.C06_answered', 'C06.C06_no_serverbug', 'C06.C06_tagged', 'C18.C06_modutf7_total', 'C18.C18_framing'],
     'C07': ['C07.C07_envelope', 'C07.C07_body', 'C07.C07_wellformed', 'C18.C07_quoted_escape', 'C18.C07_build_safe', 'C18.C18_encode_ascii'],
